@@ -85,21 +85,50 @@ theorem View.set_comm (v : View α) (r r' : Region) (b b' : List (Slot α)) (h :
   · subst h2; simp [h1]
   · simp [h1, h2]
 
+/-- the element count a heap block was allocated with -/
+def Mem.cnt (m : Mem α) (id : Nat) : Option Nat := (m.blocks.find? (·.id == id)).map (·.count)
+
+theorem find_map_count (bs : List (Block α)) (id id' : Nat) (b : List (Slot α)) :
+    ((bs.map fun (x : Block α) => if x.id == id then { x with buf := b } else x).find? (·.id == id')).map (·.count)
+      = (bs.find? (·.id == id')).map (·.count) := by
+  induction bs with
+  | nil => rfl
+  | cons x xs ih =>
+    rw [List.map_cons, List.find?_cons, List.find?_cons]
+    cases hx : (x.id == id) with
+    | true =>
+      simp only [↓reduceIte]
+      cases hx' : (x.id == id') with
+      | true => rfl
+      | false => exact ih
+    | false =>
+      simp only [Bool.false_eq_true, ↓reduceIte]
+      cases hx' : (x.id == id') with
+      | true => rfl
+      | false => exact ih
+
+theorem setBuf_cnt (m : Mem α) (r : Region) (b : List (Slot α)) (id : Nat) : (m.setBuf r b).cnt id = m.cnt id := by
+  cases r with
+  | inl c => rfl
+  | blk id0 => exact find_map_count m.blocks id0 id b
+  | tmp => rfl
+
 /-- the parts of a memory that element-level primitives never change -/
 structure Keep (m m' : Mem α) : Prop where
   cat : m'.cat = m.cat
   ws : m'.ws = m.ws
   hr : m'.hasRealloc = m.hasRealloc
   nid : m'.nextId = m.nextId
+  cnt : ∀ id, m'.cnt id = m.cnt id
 
-theorem Keep.refl (m : Mem α) : Keep m m := ⟨rfl, rfl, rfl, rfl⟩
+theorem Keep.refl (m : Mem α) : Keep m m := ⟨rfl, rfl, rfl, rfl, fun _ => rfl⟩
 theorem Keep.trans {m m1 m2 : Mem α} (h1 : Keep m m1) (h2 : Keep m1 m2) : Keep m m2 :=
-  ⟨h2.cat.trans h1.cat, h2.ws.trans h1.ws, h2.hr.trans h1.hr, h2.nid.trans h1.nid⟩
+  ⟨h2.cat.trans h1.cat, h2.ws.trans h1.ws, h2.hr.trans h1.hr, h2.nid.trans h1.nid, fun id => (h2.cnt id).trans (h1.cnt id)⟩
 
 theorem setBuf_view (m : Mem α) (r : Region) (b0 b : List (Slot α)) (h : m.buf r = some b0) (hl : b.length = b0.length) :
     (m.setBuf r b).buf = View.set m.buf r b ∧ Keep m (m.setBuf r b) := by
   have hu := upd_setBuf m r b0 b h hl
-  refine ⟨?_, ⟨hu.cat, hu.ws, hu.hr, hu.nid⟩⟩
+  refine ⟨?_, ⟨hu.cat, hu.ws, hu.hr, hu.nid, setBuf_cnt m r b⟩⟩
   funext r'
   by_cases h' : r' = r
   · subst h'; rw [View.set_same]; exact hu.buf
@@ -111,8 +140,8 @@ theorem Same.refl (m : Mem α) : Same m m := ⟨rfl, Keep.refl m⟩
 theorem Same.trans {m m1 m2 : Mem α} (h1 : Same m m1) (h2 : Same m1 m2) : Same m m2 :=
   ⟨h2.1.trans h1.1, h1.2.trans h2.2⟩
 
-theorem withEv_same (m : Mem α) (e : Ev) : Same m { m with ev := e } := ⟨by funext r; cases r <;> rfl, ⟨rfl, rfl, rfl, rfl⟩⟩
-theorem withFuel_same (m : Mem α) (f : Option Nat) : Same m { m with fuel := f } := ⟨by funext r; cases r <;> rfl, ⟨rfl, rfl, rfl, rfl⟩⟩
+theorem withEv_same (m : Mem α) (e : Ev) : Same m { m with ev := e } := ⟨by funext r; cases r <;> rfl, ⟨rfl, rfl, rfl, rfl, fun _ => rfl⟩⟩
+theorem withFuel_same (m : Mem α) (f : Option Nat) : Same m { m with fuel := f } := ⟨by funext r; cases r <;> rfl, ⟨rfl, rfl, rfl, rfl, fun _ => rfl⟩⟩
 
 /-- postcondition: success, the buffer of `r` replaced by `b'` relative to `m` -/
 def OkSet (m : Mem α) (r : Region) (b' : List (Slot α)) : Except Stop Unit → Mem α → Prop :=
